@@ -150,9 +150,9 @@ func parseJSONLineStringCoords(
 		if !rcoords.Exists() {
 			return nil, nil, errCoordinatesMissing
 		}
-		if !rcoords.IsArray() {
-			return nil, nil, errCoordinatesInvalid
-		}
+	}
+	if !rcoords.IsArray() {
+		return nil, nil, errCoordinatesInvalid
 	}
 	rcoords.ForEach(func(key, value gjson.Result) bool {
 		if !value.IsArray() {
